@@ -17,6 +17,27 @@ from .errors import HarnessError, InjectedCrash
 _tls = threading.local()
 
 
+def _holds_real_lock() -> bool:
+    tid = threading.get_ident()
+    try:
+        import importlib._bootstrap as ib
+
+        for ref in list(ib._module_locks.values()):
+            lock = ref()
+            if lock is not None and getattr(lock, "owner", None) == tid:
+                return True
+    except Exception:  # noqa: BLE001
+        pass
+    try:
+        from numba.core.compiler_lock import global_compiler_lock
+
+        if global_compiler_lock._lock._is_owned():
+            return True
+    except Exception:  # noqa: BLE001
+        pass
+    return False
+
+
 def current_vthread():
     return getattr(_tls, "vt", None)
 
@@ -80,7 +101,7 @@ class SimLock:
 
 
 class Interleaver:
-    WAIT = 60.0  # real seconds before a parked controller declares a harness hang
+    WAIT = 100.0  # real seconds before a parked controller declares a harness hang
 
     def __init__(self, ch, trace_root: str, qlo: int, qhi: int, log: list, stats: dict):
         self.ch = ch
@@ -109,6 +130,11 @@ class Interleaver:
             raise InjectedCrash(where)
         vt.budget -= 1
         if vt.budget <= 0:
+            if _holds_real_lock():
+                # never park a thread that owns a real (non-simulated) lock another virtual thread may need:
+                # a module import lock (lazy imports inside abTEM functions) or numba's compiler lock
+                vt.budget = 1
+                return self._line_trace
             vt.where = f"{frame.f_code.co_filename[len(self.root):]}:{frame.f_lineno}"
             self._yield(vt, "q")
         return self._line_trace
